@@ -69,6 +69,12 @@ def classify(o, windows):
             "length_m": f64_of_hex(c["crystal"]["length_um"]) * 1e-6}
 
 
+def sig_internal(o):
+    """the signal direction is given by its INTERNAL angle (theta_deg), not by theta_external_deg"""
+    sg = o["cfg"]["signal"]
+    return sg["theta_deg"] is not None and sg["theta_external_deg"] is None
+
+
 def oracle(ctx, obs, spans, windows):
     """S5: the property's clauses on the implementation."""
     for o in obs:
@@ -94,11 +100,23 @@ def oracle(ctx, obs, spans, windows):
             ctx.count("outside_window")
             continue
         fn = site_function(spans, r.get("loc", "")) if r["class"] == "panic" else None
-        cause = "signal_le_pump" if k["ls_le_lp"] else ("nan_cost" if fn == "nelder_mead_1d" else "other")
+        # the cause is OBSERVED, not inferred from the panic site: "nan_cost" only when the public call
+        # signal.theta_external(crystal at the placeholder angle) -- the quantity optimum_theta feeds into its cost function --
+        # is itself non-finite on this input; a panic in the same function on any other input is a different defect
+        orc = o["shadow"]["oracles"]
+        ext_nonfinite = "snell_ext" in orc and orc["snell_ext"] is None
+        internal = sig_internal(o)
+        cause = "signal_le_pump" if k["ls_le_lp"] else ("nan_cost" if fn == "nelder_mead_1d" and ext_nonfinite else "other")
+        if internal:
+            angle = "internal_beyond_tir" if ext_nonfinite else "internal"
+        else:
+            te = o["cfg"]["signal"]["theta_external_deg"]
+            angle = "external_beyond_90deg" if te is not None and abs(f64_of_hex(te)) >= 90.0 else "external"
         if r["class"] == "panic":
             ctx.violation("S5", f"try_as_spdc panics ({r['loc']}: {r['msg'][:100]}) for a window-valid configuration [{combo}, "
-                          f"signal {k['ls']} nm, pump {k['lp']} nm]; the property requires Ok or Err",
-                          {"kind": "panic", "site": fn, "cause": cause}, detail)
+                          f"signal {k['ls']} nm, pump {k['lp']} nm, signal angle {angle}]; the property requires Ok or Err",
+                          {"kind": "panic", "site": fn, "cause": cause, "theta": "auto" if k["theta_auto"] else "explicit",
+                           "signal_angle": angle}, detail)
         if r["class"] == "ok" and r["nonfinite"]:
             zero_period = o["cfg"]["pp"] != "off" and o["cfg"]["pp"]["period_um"] != "auto" and f64_of_hex(o["cfg"]["pp"]["period_um"]) == 0.0
             cause = "zero_period" if zero_period else ("waist_position_infinite" if set(r["nonfinite"]) <= {"zs", "zi"} else "other")
@@ -354,12 +372,12 @@ def run(ctx):
         nbad += composed_checks(ctx, obs, limit=40 if ctx.tier == "quick" else 400)
     oracle(ctx, obs, spans, windows)
     api_oracle(ctx, obs)
-    if (not proved or nbad) and not any(v["found_input"] for v in ctx.violations):
+    if (not proved or nbad) and not cc.unknown_failing_input(ctx):
         ctx.log("S5 deep search for a failing input (proof obligations / correspondence are broken)")
         for k in range(3):
             obs2 = run_harness(ctx, binp, ["c17", ctx.seed + 7919 * (k + 1), 3000, 40])
             oracle(ctx, obs2, spans, windows)
-            if any(v["found_input"] for v in ctx.violations):
+            if cc.unknown_failing_input(ctx):
                 break
     ctx.cov["rule"] = ("structured JSON configurations: 11 crystals x 5 types x 8 spellings x auto/explicit crystal angle x poling off/auto/explicit "
                        "(+apodization kinds) x idler omitted/auto/explicit x internal/external angles x waist positions auto/explicit/omitted, "
